@@ -848,7 +848,109 @@ def stage_pipeline(work, tier, seed):
             "samples": [dict(id=v["id"], via=v["via"], outcome=v["outcome"], cls=v["class"]) for v in verdicts[:200:45]]}
 
 
-STAGES = {"pipeline": stage_pipeline, "lex": stage_lex, "resolve": stage_resolve, "prec": stage_prec, "tables": stage_tables, "lr": stage_lr, "mci_lr": stage_mci_lr, "glr": stage_glr}
+
+REGEN_GRAMMARS = {
+    "calc": "E: left=E '+' right=E {Add, 1, left} | left=E '*' right=E {Mul, 2, left} | Num;\nterminals\nNum: /\\d+/;\nPlus: '+';\nMul: '*';\n",
+    "list": "S: Item+ Te;\nItem: Num | Name;\nterminals\nNum: /\\d+/;\nName: /[a-z]+/;\nTe: 'e';\n",
+    "opt": "S: Ta At? Bs*;\nAt: Tc Num Num;\nBs: Num Name;\nterminals\nTa: 'a';\nTc: ':';\nNum: /\\d+/;\nName: /[a-z]+/;\n",
+    "rec": "A: B | Num;\nB: Tl A Tr {Paren} | Tl Tr {Unit};\nterminals\nTl: '(';\nTr: ')';\nNum: /\\d+/;\n",
+    "stmt": "P: St*;\nSt: Name Te Ex {Assign} | Tp Ex {Print};\nEx: Num | Name;\nterminals\nName: /[a-z]+/;\nNum: /\\d+/;\nTe: '=';\nTp: 'print';\n",
+}
+
+
+def run_histories(work, name, reqs):
+    import subprocess
+    shards = [reqs[i::run.NCPU] for i in range(run.NCPU)]
+
+    def one(k):
+        if not shards[k]:
+            return []
+        cp = work.path(name, "req%d.ndjson" % k)
+        op = work.path(name, "res%d.ndjson" % k)
+        with open(cp, "w") as f:
+            for r in shards[k]:
+                f.write(json.dumps(r) + "\n")
+        r = subprocess.run([run.vhist_bin(), "history", cp, op], capture_output=True, text=True,
+                           env=run.clean_env(), timeout=1800)
+        if r.returncode != 0:
+            raise run.ToolError("vhist history failed: " + r.stderr[-400:])
+        return run.read_ndjson(op)
+    from concurrent.futures import ThreadPoolExecutor
+    with ThreadPoolExecutor(max_workers=run.NCPU) as ex:
+        return [x for part in ex.map(one, range(run.NCPU)) for x in part]
+
+
+def stage_regen(work, tier, seed):
+    """C18: histories of user edits and regenerations on real actions files."""
+    import itertools
+    rng = random.Random(seed * 13 + 1)
+    base = work.path("regen", "h", "x")
+    base = os.path.dirname(base)
+    # 1. fresh generation per grammar to learn the item list
+    first = [{"id": g, "dir": os.path.join(base, "first_" + g), "grammar": text, "settings": {"algo": "lr"},
+              "steps": [{"op": "generate", "force": True}]} for g, text in REGEN_GRAMMARS.items()]
+    items = {}
+    for h in run_histories(work, "regen0", first):
+        items[h["id"]] = [(it[0], it[1]) for it in h["steps"][0]["items"]
+                          if it[0] in ("type", "fn") and it[1] not in ("Input", "Ctx", "Token")]
+    reqs = []
+    n = 0
+    gen = {"op": "generate"}
+    for g, text in REGEN_GRAMMARS.items():
+        its = items[g]
+        hists = []
+        # delete each single item, regenerate twice
+        for it in its:
+            hists.append([{"op": "delete", "names": [list(it)]}, gen, gen])
+        # delete pairs (all in thorough, sampled in quick)
+        pairs = list(itertools.combinations(its, 2))
+        if tier == "quick":
+            pairs = rng.sample(pairs, min(12, len(pairs)))
+        for a, b in pairs:
+            hists.append([{"op": "delete", "names": [list(a), list(b)]}, gen])
+        fns = [x for x in its if x[0] == "fn"]
+        for it in (fns if tier == "thorough" else rng.sample(fns, min(3, len(fns)))):
+            other = rng.choice(its)
+            hists.append([{"op": "edit", "name": it[1]}, {"op": "delete", "names": [list(other)]}, gen, gen])
+        for k in range(3 if tier == "quick" else 12):
+            steps = []
+            for _ in range(rng.randint(2, 4)):
+                c = rng.random()
+                if c < 0.45:
+                    steps.append({"op": "delete", "names": [list(x) for x in rng.sample(its, rng.randint(1, 3))]})
+                elif c < 0.6 and fns:
+                    steps.append({"op": "edit", "name": rng.choice(fns)[1]})
+                elif c < 0.75:
+                    steps.append({"op": "add", "kind": rng.choice(["fn", "type"]),
+                                  "name": rng.choice(["user_helper", "UserExtra"]) + str(len(steps)),
+                                  "at": rng.randint(0, len(its))})
+                else:
+                    steps.append(gen)
+            steps += [gen, gen]
+            hists.append(steps)
+        for steps in hists:
+            n += 1
+            reqs.append({"id": "%s:%d" % (g, n), "dir": os.path.join(base, "h%d" % n), "grammar": text,
+                         "settings": {"algo": "lr"}, "steps": [{"op": "generate", "force": True}] + steps})
+    res = run_histories(work, "regen", reqs)
+    hp = work.path("regen", "hists.ndjson")
+    with open(hp, "w") as f:
+        for h in res:
+            f.write(json.dumps(h) + "\n")
+    r = run.run_tlc(work, "CheckRegen", "CheckRegen.cfg", {"HISTS": hp})
+    mc = run.run_tlc(work, "MC_Regen", "MC_Regen.cfg", {}, workers=8)
+    steps_of = {q["id"]: q["steps"] for q in reqs}
+    verdicts = r["verdicts"]
+    return {"verdicts": [v for v in verdicts if v["bad"]], "steps": {v["id"]: steps_of[v["id"]] for v in verdicts if v["bad"]},
+            "gtext": {q["id"]: q["grammar"] for q in reqs if any(v["id"] == q["id"] and v["bad"] for v in verdicts)},
+            "divergences": ["file differs from Regen.Generate: %s steps %s" % (v["id"], v["div"]) for v in verdicts if v["div"]][:10],
+            "states": r["distinct"] + mc["distinct"], "transitions": r["states"] + mc["states"],
+            "mc_regen_ok": "No error has been found" in mc["out"],
+            "ncases": len(reqs), "ntraces": len(verdicts), "nregenerations": sum(v["ngen"] for v in verdicts),
+            "samples": [dict(id=q["id"], steps=q["steps"]) for q in reqs[:60:25]]}
+
+
+STAGES = {"regen": stage_regen, "pipeline": stage_pipeline, "lex": stage_lex, "resolve": stage_resolve, "prec": stage_prec, "tables": stage_tables, "lr": stage_lr, "mci_lr": stage_mci_lr, "glr": stage_glr}
 
 
 # ---------------------------------------------------------------------------
@@ -868,6 +970,8 @@ class Context:
         p = {"property": prop, "stage": v["stage"], "id": cid, "kind": v.get("kind"),
              "what": v["what"], "grammar": self.grammar(v["stage"], cid),
              "tt": cid.rsplit("|", 1)[-1]}
+        if "steps" in self.res[v["stage"]]:
+            p["steps"] = self.res[v["stage"]]["steps"].get(cid)
         if "iid" in v:
             inp = self.res[v["stage"]].get("inputs", {}).get("%s#%d" % (cid, v["iid"]))
             if inp:
@@ -895,7 +999,7 @@ def coverage(prop, res, stage_names):
                                                    "ntables", "maxlen", "wall", "nambiguous", "ninscope", "nlrglr",
                                                    "ncells_exercised", "ngrammars_with_conflicts",
                                                    "mc_lex_configurations", "mc_lex_ok", "nmulti_survivors",
-                                                   "outcomes", "mc_pipeline_ok") if k in r}
+                                                   "outcomes", "mc_pipeline_ok", "mc_regen_ok", "nregenerations") if k in r}
         cov["per_stage"][st]["divergences"] = len(r.get("divergences", []))
     cov["states"] = max(cov["states"], 1)
     cov["transitions"] = max(cov["transitions"], 1)
